@@ -124,7 +124,7 @@ pub fn check_stream(ls: &LangSet, code: &str, toks: &[IdTok]) -> Verdict {
 }
 
 pub fn run(ctx: &Ctx) -> Outcome {
-    let n_streams = ctx.n(120_000, 4_000_000);
+    let n_streams = ctx.n(500_000, 10_000_000);
     let rep = run_sharded(ctx, |w, nw, rep| {
         let ls = LangSet::new();
         let mut rng = Rng::derive(ctx.seed, "C15", w as u64);
